@@ -22,7 +22,7 @@ RULE = ("random model objects of the ten types (three label realisations, stale 
         "every public function/method that takes a model/dict/constraint argument with argument snapshots; plus aliasing "
         "probes on copies and getters; plus generated histories of 8-20 API calls over 1-4 objects (8 scripted openings: copy then "
         "mutate, receiver = argument, model arguments passed twice, update-induced sharing, getters, conversions/solvers/annealers, "
-        "copy constructors, random; then 3-7 random applicable calls) whose sharing graph and changed cells are compared with the "
+        "copy constructors, operators in place and not (a+a, a*=a, a-=a, a**=n, refresh, clear), sat gates, free utilities, random; then 3-7 random applicable calls) whose sharing graph and changed cells are compared with the "
         "explicit-heap model after every call. non-trivial = model with >=2 terms (info/copy) or a call whose argument has >=2 terms; "
         "distinct = distinct case JSON")
 ASSUMPTIONS = ["'unchanged argument' is judged by value equality (dict ==, order-insensitive): the brute-force solvers "
@@ -30,8 +30,7 @@ ASSUMPTIONS = ["'unchanged argument' is judged by value equality (dict ==, order
                "the aliasing theorems (T19.A/B/C) are about the explicit-heap model Qv/Model/Heap.lean; that it says what the "
                "code does to the object graph is established by comparing the real identity graph and changed-cell set with "
                "its prediction after every call of the generated histories (testing); functions not modelled as heap "
-               "transformers (subgraph, subvalue, normalize, value, sat gates, arithmetic, extrema) are covered by "
-               "before/after snapshots only",
+               "transformers (simplify, pretty_str, problems/*) are covered by before/after snapshots only",
                "a mutable container = dict / list / set (and subclasses); attributes named _verif_* (the DESIGN §5 hook) are "
                "not part of the library's state"]
 
@@ -502,7 +501,7 @@ def info_symbolic(ctx, N):
 
 def check(ctx):
     from . import c19h
-    c19h.check(ctx, ctx.scale(240, 2400))
+    c19h.check(ctx, ctx.scale(360, 3600))
     info_cases(ctx, ctx.scale(300, 3000))
     info_symbolic(ctx, ctx.scale(60, 400))
     for _ in range(ctx.scale(1, 5)):
